@@ -49,6 +49,10 @@ pub enum Ev {
     Exit { call: usize, addr: usize, fp: u64, ok: bool, serial: u64 },
 }
 
+/// A fault-plan entry `PANIC_BASE + k` makes the k-th call of the step panic (user code that unwinds through the
+/// generation step) instead of returning an error.
+pub const PANIC_BASE: usize = 1 << 40;
+
 #[derive(Debug, Clone, PartialEq, Eq)]
 pub struct Injected {
     pub call: usize,
@@ -130,11 +134,15 @@ impl<'a> Operator<&'a Pop> for Maker {
             st.log.lock().unwrap().push(Ev::Draw { call, word });
             (st.yield_hook)();
         }
-        let fail = st.fail_at.lock().unwrap().contains(&call);
+        let boom = st.fail_at.lock().unwrap().contains(&(call + PANIC_BASE));
+        let fail = boom || st.fail_at.lock().unwrap().contains(&call);
         let serial = if fail { 0 } else { st.next_serial.fetch_add(1, Ordering::SeqCst) };
         let fp2 = fingerprint(pop);
         st.log.lock().unwrap().push(Ev::Exit { call, addr, fp: fp2, ok: !fail, serial });
         st.in_flight.fetch_sub(1, Ordering::SeqCst);
+        if boom {
+            panic!("injected child-maker panic at call {call}");
+        }
         if fail {
             Err(Injected { call })
         } else {
